@@ -896,7 +896,7 @@ func runC06(c *ctx) {
 		}
 	}
 	r := c.rng("random")
-	n := c.n(2500, 40000)
+	n := c.n(2500, 150000)
 	for i := 0; i < n; i++ {
 		text := genSmallGrammar(r)
 		if c.mine() {
@@ -904,14 +904,14 @@ func runC06(c *ctx) {
 		}
 	}
 	r3 := c.rng("large")
-	for i := 0; i < c.n(600, 10000); i++ {
+	for i := 0; i < c.n(600, 30000); i++ {
 		text := genLargeGrammar(r3)
 		if c.mine() {
 			c06Check(c, fmt.Sprintf("large%d", i), text, 4)
 		}
 	}
 	r4 := c.rng("ll")
-	for i := 0; i < c.n(400, 8000); i++ {
+	for i := 0; i < c.n(400, 30000); i++ {
 		text := genLLGrammar(r4)
 		if c.mine() {
 			c06Check(c, fmt.Sprintf("ll%d", i), text, 4)
@@ -919,14 +919,14 @@ func runC06(c *ctx) {
 	}
 	// the grammars C01 generates (EBNF-heavy)
 	r2 := c.rng("wellformed")
-	for i := 0; i < c.n(600, 8000); i++ {
+	for i := 0; i < c.n(600, 20000); i++ {
 		g := genWellFormedSpec(r2, wfOpts{nNT: 1 + r2.intn(2), nTok: r2.intn(2), nStr: 2 + r2.intn(2), nExtraRules: r2.intn(2), nDirectives: r2.intn(3), depth: 1 + r2.intn(2), ruleHandles: true})
 		if c.mine() {
 			c06Check(c, fmt.Sprintf("wf%d", i), canonicalText(g), 5)
 		}
 	}
 	// operator grammars
-	nOps := c.n(192, 2400)
+	nOps := c.n(192, 6000)
 	for i := 0; i < nOps; i++ {
 		rr := newRng(c.seed, fmt.Sprintf("C06/op/%d", i))
 		if c.mineIdx(i) {
